@@ -1,6 +1,6 @@
 """Runs real pyatv.scan() deliveries (through harness/c12.py's driver) for C05 in a separate
 process so that a hang - even inside C code such as a regular expression - can be detected and
-attributed.  stdin: JSON list of jobs {"feed": [[src, hex], ...]}; one JSON result per line."""
+attributed.  stdin: JSON list of jobs {"mode": "m", "feed": [[src, hex], ...]} or {"mode": "u", "feed": [[hex, ...] per host]}; one JSON result per line."""
 import json
 import logging
 import sys
@@ -12,10 +12,14 @@ def main():
     import c12
     jobs = json.load(sys.stdin)
     for j in jobs:
-        feed = [(src, bytes.fromhex(h)) for src, h in j["feed"]]
+        mode = j.get("mode", "m")
+        if mode == "m":
+            feed = [(src, bytes.fromhex(h)) for src, h in j["feed"]]
+        else:
+            feed = [[bytes.fromhex(h) for h in host] for host in j["feed"]]
         res = {"err": None, "obs": None}
         try:
-            obs, info = c12.run_scan("m", None, None, feed)
+            obs, info = c12.run_scan(mode, None, None, feed)
             res["obs"] = obs
         except BaseException as ex:  # noqa
             res["err"] = "%s: %s" % (type(ex).__name__, ex)
